@@ -41,17 +41,8 @@ func (c *Ctx) ruleBareRead(rule string, in func(*ssa.Function) bool) {
 func checkC10(c *Ctx) {
 	// G1 pairs (flattened through sub-codecs)
 	rw, _ := c.pairRule("G1.pair", "efi/signature.ReadWinCertificate", "efi/signature.WriteWinCertificate", nil)
-	ru, wu := c.pairRule("G1.pair", "efi/signature.ReadWinCertificateUEFIGUID", "efi/signature.WriteWinCertificateUEFIGUID", map[string]bool{
-		// the UEFI_GUID writer emits the body as CertType+CertData, the reader consumes it as the header's body
-		sigPkg + ".WinCertificateUEFIGUID.CertType.Data1": true, sigPkg + ".WinCertificateUEFIGUID.CertType.Data2": true,
-		sigPkg + ".WinCertificateUEFIGUID.CertType.Data3": true, sigPkg + ".WinCertificateUEFIGUID.CertType.Data4": true,
-		sigPkg + ".WinCertificateUEFIGUID.CertData": true,
-	})
-	c.pairRule("G1.pair", "efi/signature.ReadEFIVariableAuthencation2", "efi/signature.WriteEFIVariableAuthencation2", map[string]bool{
-		sigPkg + ".WinCertificateUEFIGUID.CertType.Data1": true, sigPkg + ".WinCertificateUEFIGUID.CertType.Data2": true,
-		sigPkg + ".WinCertificateUEFIGUID.CertType.Data3": true, sigPkg + ".WinCertificateUEFIGUID.CertType.Data4": true,
-		sigPkg + ".WinCertificateUEFIGUID.CertData": true,
-	})
+	ru, wu := c.pairRule("G1.pair", "efi/signature.ReadWinCertificateUEFIGUID", "efi/signature.WriteWinCertificateUEFIGUID", map[string]bool{"@uefi-body": true})
+	c.pairRule("G1.pair", "efi/signature.ReadEFIVariableAuthencation2", "efi/signature.WriteEFIVariableAuthencation2", map[string]bool{"@uefi-body": true})
 	// G5 layouts
 	c.layoutRule("G5.layout", rw, true, nil, []layoutField{{"Length", 4}, {"Revision", 2}, {"CertType", 2}, {"Certificate", -1}}, "WIN_CERTIFICATE")
 	if rd := c.Fn("G5.layout", "efi/signature.ReadEFIVariableAuthencation2"); rd != nil {
@@ -82,32 +73,68 @@ func checkC10(c *Ctx) {
 		}
 		c.R.Check(ok, "G1.tail", name(rw), "body.len", c.Pos(rw.Pos()), "the certificate body is dwLength minus the 8 header bytes", det)
 	}
-	// the GUID variant parses type GUID and data out of the already consumed body (alias), consuming nothing more
+	// the GUID variant consumes nothing beyond the WIN_CERTIFICATE: the input stream is only ever
+	// handed to the WIN_CERTIFICATE reader, and type GUID / data derive from the consumed body
 	if ru != nil {
-		tbl := c.codecTable(ru, true)
-		okAlias, detAlias := true, ""
-		nAlias := 0
-		for _, e := range tbl {
-			if strings.HasPrefix(e.what, "call:") {
-				continue
+		okUse, detUse := true, ""
+		var fP *ssa.Parameter
+		for _, p := range ru.Params {
+			if ir.NamedTypeID(p.Type()) == "io.Reader" {
+				fP = p
 			}
-			if !e.alias {
-				okAlias, detAlias = false, "entry "+e.String()+" consumes from the input stream beyond the declared WIN_CERTIFICATE length"
-			} else {
-				nAlias++
-				// the aliasing reader is constructed over Header.Certificate
-				src := ir.StripIface(e.onSrc)
-				if cl, ok := src.(*ssa.Call); ok {
-					if !ir.HasField(c.sliceOf(cl.Call.Args[0]), sigPkg+".WINCertificate.Certificate") {
-						okAlias, detAlias = false, "the sub-parser does not read from the header's certificate body"
+		}
+		if fP == nil {
+			okUse, detUse = false, "no io.Reader parameter"
+		} else {
+			for _, r := range *fP.Referrers() {
+				call, isCall := r.(*ssa.Call)
+				if !isCall {
+					if _, isDbg := r.(*ssa.DebugRef); isDbg {
+						continue
+					}
+					okUse, detUse = false, "the input stream is used at "+c.IPos(r)+" other than by handing it to the WIN_CERTIFICATE reader"
+					continue
+				}
+				callee := ir.Callee(call)
+				if callee == nil || callee != rw {
+					okUse, detUse = false, "the input stream is also consumed by "+ir.CallID(call)+" at "+c.IPos(call)+": more than the declared dwLength bytes are read"
+				}
+			}
+		}
+		for _, fld := range []string{"CertType", "CertData"} {
+			found := false
+			instrsOf(ru, func(i ssa.Instruction) {
+				if st, ok := i.(*ssa.Store); ok && ir.FieldID(st.Addr) == sigPkg+".WinCertificateUEFIGUID."+fld {
+					found = true
+					if !ir.HasField(c.Slicer().Slice(st.Val), sigPkg+".WINCertificate.Certificate") {
+						okUse, detUse = false, fld+" does not derive from the consumed certificate body"
+					}
+				}
+				// filled in place by a read from a reader over the body
+				if call, ok := i.(*ssa.Call); ok && (ir.CallID(call) == "encoding/binary.Read" || ir.CallID(call) == "io.ReadFull") {
+					for _, pv := range boxedValues(call.Call.Args[len(call.Call.Args)-1]) {
+						if ir.FieldID(pv) == sigPkg+".WinCertificateUEFIGUID."+fld {
+							found = true
+							if !ir.HasField(c.Slicer().Slice(call.Call.Args[0]), sigPkg+".WINCertificate.Certificate") {
+								okUse, detUse = false, fld+" is read from something other than the consumed certificate body"
+							}
+						}
+					}
+				}
+			})
+			if !found {
+				// built by a helper: the returned struct's field must still derive from the body
+				for _, r := range ir.Returns(ru) {
+					if retClass(ru, r) == "fail" {
+						continue
+					}
+					if !ir.HasField(c.Slicer().Slice(r.Results[0]), sigPkg+".WINCertificate.Certificate") {
+						okUse, detUse = false, "the decoded value does not derive from the consumed certificate body"
 					}
 				}
 			}
 		}
-		if nAlias < 2 {
-			okAlias, detAlias = false, "type GUID and data are not both parsed from the consumed body"
-		}
-		c.R.Check(okAlias, "G1.consume", name(ru), "alias-only", c.Pos(ru.Pos()), "decoding consumes exactly the declared length: type GUID and data are parsed out of the consumed body", detAlias)
+		c.R.Check(okUse, "G1.consume", name(ru), "declared-length-only", c.Pos(ru.Pos()), "decoding consumes exactly the declared length: the stream is read only through the WIN_CERTIFICATE reader, type GUID and data come from the consumed body", detUse)
 	}
 	// G3: nothing emitted twice
 	if wu != nil {
@@ -142,12 +169,6 @@ func checkC10(c *Ctx) {
 // be empty in what is passed to the header writer: either cleared on a local
 // copy on every path before the call, or never filled by the reader.
 func (c *Ctx) noDoubleEmission(wu *ssa.Function) {
-	var sub *ssa.Call
-	instrsOf(wu, func(i ssa.Instruction) {
-		if call, ok := i.(*ssa.Call); ok && ir.CallID(call) == sigPkg+".WriteWinCertificate" {
-			sub = call
-		}
-	})
 	// does the paired reader keep the body in Header.Certificate?
 	readerKeeps := false
 	if ru := c.FnOpt("efi/signature.ReadWinCertificateUEFIGUID"); ru != nil {
@@ -159,38 +180,40 @@ func (c *Ctx) noDoubleEmission(wu *ssa.Function) {
 			}
 		})
 	}
-	if sub == nil {
-		c.R.Undecf("G3.once", name(wu), "header-body", c.Pos(wu.Pos()), "the header writer call must be identifiable", "no call to WriteWinCertificate")
-		return
-	}
 	if !readerKeeps {
-		c.R.Okf("G3.once", name(wu), "header-body", c.IPos(sub), "the reader does not keep the body in Header.Certificate, so the writer cannot emit it twice")
+		c.R.Okf("G3.once", name(wu), "header-body", c.Pos(wu.Pos()), "the reader does not keep the body in Header.Certificate, so the writer cannot emit it twice")
 		return
 	}
-	hdrArg := sub.Call.Args[1]
-	a, isLocal := ir.RootOf(hdrArg).(*ssa.Alloc)
-	ok, det := false, "the decoded header (which still holds the raw body in Certificate) is passed to the header writer, and the body is written again as CertType+CertData"
-	if isLocal {
-		// a store of nil/empty to .Certificate of the local copy dominating the call
-		for _, r := range *a.Referrers() {
-			fa, isFA := r.(*ssa.FieldAddr)
-			if !isFA || ir.FieldID(fa) != sigPkg+".WINCertificate.Certificate" {
-				continue
-			}
-			for _, rr := range *fa.Referrers() {
-				st, isSt := rr.(*ssa.Store)
-				if !isSt || !isEmptySlice(st.Val) {
-					continue
-				}
-				if st.Block() == sub.Block() && precedes(st, sub) || st.Block() != sub.Block() && st.Block().Dominates(sub.Block()) {
-					ok, det = true, ""
-				} else {
-					det = "Certificate is cleared on the local header copy only on some paths (at " + c.IPos(st) + "); on the others the body is emitted twice"
-				}
-			}
+	if why := c.codecOpaque(wu, 0); why != "" {
+		c.R.Infof("G3.once", name(wu), "header-body", c.Pos(wu.Pos()), "not decided for this shape: the writer uses "+why)
+		return
+	}
+	leaves := c.flatten(c.codecTable(wu, false), false, 0)
+	hdrBody, parts := false, false
+	for _, l := range leaves {
+		last := lastComponent(l.id)
+		if l.width < 0 && (strings.HasSuffix(l.id, ".WINCertificate.Certificate") || last == "Certificate") {
+			hdrBody = true
+		}
+		if strings.Contains(l.id, ".CertType.Data") || last == "CertData" {
+			parts = true
 		}
 	}
-	c.R.Check(ok, "G3.once", name(wu), "header-body", c.IPos(sub), "the certificate body is emitted once (header Certificate cleared on a local copy before the header is written)", det)
+	// raw writes of the body parts (b.Write(w.CertData)) count as parts too
+	instrsOf(wu, func(i ssa.Instruction) {
+		if call, ok := i.(*ssa.Call); ok && (ir.CallID(call) == "bytes.Buffer.Write" || call.Call.IsInvoke() && call.Call.Method.Name() == "Write") {
+			args := ir.CallArgs(call)
+			if ir.HasField(c.Slicer().Slice(args[len(args)-1]), sigPkg+".WinCertificateUEFIGUID.CertData") {
+				parts = true
+			}
+			if ir.HasField(c.Slicer().Slice(args[len(args)-1]), sigPkg+".WINCertificate.Certificate") {
+				hdrBody = true
+			}
+		}
+	})
+	c.R.Check(!(hdrBody && parts), "G3.once", name(wu), "header-body", c.Pos(wu.Pos()),
+		"the certificate body is emitted once: the header's own Certificate field is empty (or not written) when type GUID and data are written",
+		"the writer emits the header's Certificate field (which a decoded value still holds) and then the body again as CertType+CertData")
 }
 
 func isEmptySlice(v ssa.Value) bool {
